@@ -27,6 +27,10 @@ Theorem C19_optimizer_passthrough {G S D} (o : inner_opt G S D) (g : G) (s : S) 
   i_state (dp_set_param_groups o g) = i_state o /\ i_defaults (dp_set_param_groups o g) = i_defaults o.
 Proof. exact (optimizer_passthrough o g s d). Qed.
 
+(* ghost mode: whatever values the loss wrapper wants for its per-sample criterion, the criterion object the caller passed keeps all of its attributes
+   (reduction among them), so ordinary training after to_standard_module goes on with the criterion it started with *)
+Theorem C19_criterion_untouched {V} (own : pystr -> V) (c : list (pystr * V)) : crit_after_wrap own c = c.
+Proof. exact (criterion_untouched own c). Qed.
 (* non-vacuity: a user attribute survives, Opacus attributes written during training (incl. a deleted and re-created one) do not *)
 Example C19_nonvacuous :
   let u := [mkfact OParam 0 "my_tag"; mkfact OModule 1 "weight_g"] in
@@ -41,3 +45,4 @@ Print Assumptions C19_unwrap_restores_ledger.
 Print Assumptions C19_handles_recorded.
 Print Assumptions C19_forward_delegates.
 Print Assumptions C19_optimizer_passthrough.
+Print Assumptions C19_criterion_untouched.
